@@ -28,7 +28,15 @@ def coding_cases(draw, tier, fast=None, vt=None, message=None, force_table=False
         vt_length = draw(st.one_of(st.integers(1, 4), st.integers(1, 12)))
     else:
         vt_length = vt
-    return {"graph": graph, "bits": bits, "table": table, "fast": is_fast, "vt": vt_length}
+    options = draw(st.sampled_from(["plain", "plain", "plain", "plain", "verbose", "path", "layout", "all"]))
+    case = {"graph": graph, "bits": bits, "table": table, "fast": is_fast, "vt": vt_length}
+    if options in ("verbose", "all"):
+        case["verbose"] = True
+    if options in ("path", "all"):
+        case["need_path"] = True
+    if options in ("layout", "all"):
+        case["layout"] = draw(st.sampled_from(["F", "strided", "offset"]))
+    return case
 
 
 def budget_for(case):
@@ -41,27 +49,40 @@ def run_encode(case, accessor=None, budget=None, **extra):
     """encode() on a counting proxy. Returns (result | Raised | "BUDGET", look-ups used)."""
     dsw = import_dsw()
     graph = case["graph"]
-    acc, counter = counted(gens.accessor_of(graph) if accessor is None else accessor,
+    acc, counter = counted(gens.accessor_of(graph, case.get("layout")) if accessor is None else accessor,
                            budget_for(case) if budget is None else budget)
+    need_path = bool(case.get("need_path")) or bool(extra.pop("need_path", False))
+    table = gens.table_of(case["table"])
+    if table is not None and case.get("layout"):
+        table = gens.relayout(table, case["layout"])
     try:
         result = lib_call(dsw.encode, binary_message=gens.bits_of(case["bits"]), accessor=acc,
                           start_index=graph["start"], is_faster=case["fast"], vt_length=case["vt"],
-                          shuffles=gens.table_of(case["table"]), **extra)
+                          shuffles=table, need_path=need_path, verbose=bool(case.get("verbose")), **extra)
     except LookupBudgetExceeded:
         return "BUDGET", counter.count
+    if need_path and isinstance(result, tuple):
+        # (strand, path) or (strand, check, path): drop the path, whose format no property defines
+        import numpy
+        if not isinstance(result[-1], numpy.ndarray):
+            return Raised(TypeError("encode(need_path=True) returned %r as path" % (type(result[-1]),))), counter.count
+        result = result[0] if len(result) == 2 else tuple(result[:-1])
     return result, counter.count
 
 
 def run_decode(case, strand, check=None, bit_length=None, accessor=None, **extra):
     dsw = import_dsw()
     graph = case["graph"]
-    acc, counter = counted(gens.accessor_of(graph) if accessor is None else accessor,
+    acc, counter = counted(gens.accessor_of(graph, case.get("layout")) if accessor is None else accessor,
                            64 * (len(strand) + 2) + 4096)
+    table = gens.table_of(case["table"])
+    if table is not None and case.get("layout"):
+        table = gens.relayout(table, case["layout"])
     try:
         return lib_call(dsw.decode, dna_sequence=strand,
                         bit_length=len(case["bits"]) if bit_length is None else bit_length, accessor=acc,
                         start_index=graph["start"], is_faster=case["fast"], vt_check=check,
-                        shuffles=gens.table_of(case["table"]), **extra)
+                        shuffles=table, verbose=bool(case.get("verbose")), **extra)
     except LookupBudgetExceeded:
         return "BUDGET"
 
@@ -89,6 +110,9 @@ def walk_classes(case, strand):
         labels.append("table_at_deg2or3")
     if case["vt"]:
         labels.append("vt")
+    for option in ("verbose", "need_path", "layout"):
+        if case.get(option):
+            labels.append("opt:" + option)
     if not strand:
         labels.append("empty_strand")
     if len(case["bits"]) % 2:
